@@ -62,6 +62,8 @@ def as_seq(x, shape=None):
         if not xs:
             return SymSeq(z3.IntVal(0), lambda j: Sym(z3.IntVal(0)), shape or SInt)
         sh = shape or core_shape(xs[0])
+        if isinstance(sh, SVar):
+            sh = core_shape(Sym(xs[0].t))           # sums only need the sigma-values
 
         def at(j):
             j = lift(j)
@@ -91,6 +93,20 @@ class NP:
         if isinstance(x, LazyMap):
             return x.to_seq()
         return x
+
+    @staticmethod
+    def argsort(x, kind=None):
+        """a permutation `order` of [0,n) such that x[order] is non-decreasing (exists for every finite sequence)"""
+        c = core.ctx()
+        x = as_seq(x)
+        n = x.n
+        perm = z3.Function(c.name("argsort"), INT, INT)
+        inv = z3.Function(c.name("argsort_inv"), INT, INT)
+        j, a, b = z3.Int(c.name("pj")), z3.Int(c.name("pa")), z3.Int(c.name("pb"))
+        c.assume(z3.ForAll([j], z3.Implies(z3.And(j >= 0, j < n), z3.And(perm(j) >= 0, perm(j) < n, inv(perm(j)) == j))))
+        c.assume(z3.ForAll([j], z3.Implies(z3.And(j >= 0, j < n), z3.And(inv(j) >= 0, inv(j) < n, perm(inv(j)) == j))))
+        c.assume(z3.ForAll([a, b], z3.Implies(z3.And(0 <= a, a < b, b < n), lift(x.at(perm(a))) <= lift(x.at(perm(b))))))
+        return SymSeq(n, lambda q: Sym(perm(lift(q))), SInt, "argsort")
 
     @staticmethod
     def arange(n, dtype=None):
@@ -158,6 +174,10 @@ class HighsStub(Tracked):
 
     def getCols(self, n, idxs):
         idxs = as_seq(idxs)
+        c = core.ctx()
+        a, b = z3.Int(c.name("ga")), z3.Int(c.name("gb"))
+        # A1 (conformance-probed): HiGHS rejects index sets that are not strictly increasing (kError, zero-filled result)
+        c.prove("pre:getCols:index-set-strictly-increasing", z3.ForAll([a, b], z3.Implies(z3.And(0 <= a, a < b, b < lift(n)), lift(idxs.at(a)) < lift(idxs.at(b)))), prop=P, kind="pre")
         mk = lambda arr, nm: SymSeq(lift(n), lambda j: Sym(arr[lift(idxs.at(j))]), SReal, nm)
         return ("kOk", n, mk(self.cost, "getCols.cost"), mk(self.lb, "getCols.lower"), mk(self.ub, "getCols.upper"), 0)
 
@@ -221,7 +241,10 @@ def add_constraint_stub(self, expr, name=""):
 
 
 def quicksum_stub(self, it):
-    """contract of SolverWrapper.quicksum (proved in unit `quicksum`): the sum of the terms"""
+    """contract of SolverWrapper.quicksum (proved in unit `quicksum`): the sum of the terms (always recorded as a prefix-sum function)"""
+    import types
+    if isinstance(it, (list, tuple, types.GeneratorType)):
+        it = as_seq(list(it), None)
     return sum_(it)
 
 
@@ -539,7 +562,7 @@ def u_integer_product():
     def inv2(ns, seq, done):
         st["n"] = lift(seq.length())
         return inv(ns, seq, done)
-    loops = {0: dict(inv=inv2, on_entry=on_entry, modifies=[(("self", "store", "holds"), None)],
+    loops = {0: dict(inv=inv2, on_entry=on_entry, modifies=[(("self", "store", "holds"), None)], cut_concrete=True,
                      prop={"sound(rows=>component_i=bit_i*c)": P, "complete(component_i=bit_i*c=>rows)": P})}
     globs = dict(BASE_GLOBS, log2=log2_stub, ceil=ceil_stub)
     def replay(ob, model):
@@ -640,7 +663,7 @@ def u_apply_pending():
         hs = me.solver
         lb0, ub0 = hs.lb, hs.ub
         fake = types.ModuleType("numpy")
-        fake.array, fake.int32, fake.float64 = NP.array, None, None
+        fake.array, fake.int32, fake.float64, fake.argsort = NP.array, None, None, NP.argsort
         saved = sys.modules.get("numpy")
         sys.modules["numpy"] = fake           # the function does `import numpy as np` locally
         raised = None
